@@ -708,4 +708,125 @@ theorem boolOr_cons (x : Option Bool) (l : List (Option Bool)) :
     | nil => cases b <;> simp [boolReduce]
     | cons y ys => cases b <;> simp [boolReduce, Bool.or_comm]
 
+/-! ### MinRow / MaxRow against the order-free spec -/
+
+def liveP (l : List Pair) : List Pair := l.filter (fun p => p.count > 0)
+def cntId (m : Nat) (l : List Pair) : Nat := ((l.filter (fun p => p.id = m)).map (·.count)).foldl (· + ·) 0
+
+theorem foldl_add_nat (l : List Nat) (a : Nat) : l.foldl (· + ·) a = a + l.foldl (· + ·) 0 := by
+  induction l generalizing a with
+  | nil => simp
+  | cons x xs ih => simp only [foldl_cons]; rw [ih (a + x), ih (0 + x)]; omega
+
+theorem cntId_cons (m : Nat) (x : Pair) (l : List Pair) :
+    cntId m (x :: l) = (if x.id = m then x.count else 0) + cntId m l := by
+  unfold cntId
+  simp only [filter_cons]
+  split
+  · rename_i h; simp at h
+    simp only [map_cons, foldl_cons, Nat.zero_add, h, if_true]
+    exact foldl_add_nat _ x.count
+  · rename_i h; simp at h; simp [h]
+
+theorem cntId_zero (m : Nat) (l : List Pair) (h : ∀ y ∈ l, y.id ≠ m) : cntId m l = 0 := by
+  induction l with
+  | nil => rfl
+  | cons x xs ih =>
+    rw [cntId_cons, ih (fun y hy => h y (by simp [hy])), if_neg (h x (by simp))]
+
+theorem cntId_pos (m : Nat) (l : List Pair) (hm : ∃ y ∈ l, y.id = m) (h : ∀ y ∈ l, y.count > 0) :
+    cntId m l > 0 := by
+  induction l with
+  | nil => rcases hm with ⟨y, hy, _⟩; cases hy
+  | cons x xs ih =>
+    rw [cntId_cons]
+    have hx := h x (by simp)
+    by_cases e : x.id = m
+    · simp [e]; omega
+    · rcases hm with ⟨y, hy, hym⟩
+      rcases mem_cons.mp hy with rfl | hy
+      · exact absurd hym e
+      · have := ih ⟨y, hy, hym⟩ (fun z hz => h z (by simp [hz]))
+        omega
+
+theorem specMinRow_unfold (l : List Pair) :
+    Spec.minRow l = match ((liveP l).map (·.id)).min? with
+      | none => Pair.zero
+      | some m => ⟨m, cntId m (liveP l)⟩ := rfl
+
+theorem spec_minRow_cons (x : Pair) (xs : List Pair) :
+    Spec.minRow (x :: xs) = minRowReduce x (Spec.minRow xs) := by
+  rw [specMinRow_unfold, specMinRow_unfold]
+  have hlive : ∀ y ∈ liveP xs, y.count > 0 := by
+    intro y hy; simp [liveP] at hy; exact hy.2
+  by_cases hc : x.count > 0
+  · have hl : liveP (x :: xs) = x :: liveP xs := by simp [liveP, hc]
+    rw [hl, map_cons, min?_cons]
+    cases hm : ((liveP xs).map (·.id)).min? with
+    | none =>
+      have : liveP xs = [] := by
+        cases h : liveP xs with
+        | nil => rfl
+        | cons a as => rw [h] at hm; simp [min?_cons] at hm
+      simp [this, cntId, minRowReduce, Pair.zero, hc]
+    | some m =>
+      have hmin := (min?_eq_some_iff.mp hm)
+      have hmem : ∃ y ∈ liveP xs, y.id = m := by
+        rcases mem_map.mp hmin.1 with ⟨y, hy, e⟩; exact ⟨y, hy, e⟩
+      have hle : ∀ y ∈ liveP xs, m ≤ y.id := fun y hy => hmin.2 y.id (mem_map.mpr ⟨y, hy, rfl⟩)
+      have hpos := cntId_pos m _ hmem hlive
+      simp only [Option.elim, minRowReduce, hc, hpos, and_self, if_true, cntId_cons]
+      by_cases h1 : x.id < m
+      · have hz : cntId x.id (liveP xs) = 0 :=
+          cntId_zero _ _ (fun y hy => by have := hle y hy; omega)
+        have : ¬ x.id = m := by omega
+        simp [this, h1, hz, Nat.le_of_lt h1]
+      · by_cases h2 : x.id = m
+        · simp [h2, Nat.add_comm]
+        · have h3 : ¬ x.id ≤ m := by omega
+          simp [Nat.min_def, h1, h2, h3]
+  · have hc0 : x.count = 0 := by omega
+    have hl : liveP (x :: xs) = liveP xs := by simp [liveP, hc0]
+    rw [hl]
+    simp [minRowReduce, hc0]
+theorem specMaxRow_unfold (l : List Pair) :
+    Spec.maxRow l = match ((liveP l).map (·.id)).max? with
+      | none => Pair.zero
+      | some m => ⟨m, cntId m (liveP l)⟩ := rfl
+
+theorem spec_maxRow_cons (x : Pair) (xs : List Pair) :
+    Spec.maxRow (x :: xs) = maxRowReduce x (Spec.maxRow xs) := by
+  rw [specMaxRow_unfold, specMaxRow_unfold]
+  have hlive : ∀ y ∈ liveP xs, y.count > 0 := by
+    intro y hy; simp [liveP] at hy; exact hy.2
+  by_cases hc : x.count > 0
+  · have hl : liveP (x :: xs) = x :: liveP xs := by simp [liveP, hc]
+    rw [hl, map_cons, max?_cons]
+    cases hm : ((liveP xs).map (·.id)).max? with
+    | none =>
+      have : liveP xs = [] := by
+        cases h : liveP xs with
+        | nil => rfl
+        | cons a as => rw [h] at hm; simp [max?_cons] at hm
+      simp [this, cntId, maxRowReduce, Pair.zero, hc]
+    | some m =>
+      have hmin := (max?_eq_some_iff.mp hm)
+      have hmem : ∃ y ∈ liveP xs, y.id = m := by
+        rcases mem_map.mp hmin.1 with ⟨y, hy, e⟩; exact ⟨y, hy, e⟩
+      have hle : ∀ y ∈ liveP xs, y.id ≤ m := fun y hy => hmin.2 y.id (mem_map.mpr ⟨y, hy, rfl⟩)
+      have hpos := cntId_pos m _ hmem hlive
+      simp only [Option.elim, maxRowReduce, hc, hpos, and_self, if_true, cntId_cons]
+      by_cases h1 : x.id > m
+      · have hz : cntId x.id (liveP xs) = 0 :=
+          cntId_zero _ _ (fun y hy => by have := hle y hy; omega)
+        have : ¬ x.id = m := by omega
+        simp [this, h1, hz, Nat.le_of_lt h1]
+      · by_cases h2 : x.id = m
+        · simp [h2, Nat.add_comm]
+        · have h3 : x.id ≤ m := by omega
+          simp [h1, h2, h3]
+  · have hc0 : x.count = 0 := by omega
+    have hl : liveP (x :: xs) = liveP xs := by simp [liveP, hc0]
+    rw [hl]
+    simp [maxRowReduce, hc0]
 end PV.C17
